@@ -216,7 +216,7 @@ def shard_fn(shard, nshards, seed, tier, exe, ndocs, nenum):
 def run(tier, seed):
     bdir = build.build("asan")
     chk = core.Check(PID, tier, seed, level="fault_enumeration")
-    sh = core.parallel(shard_fn, seed=seed, tier=tier, exe=bdir + "/jcdrv", ndocs=4800 if tier == "quick" else 40000, nenum=48 if tier == "quick" else 2000)
+    sh = core.parallel(shard_fn, seed=seed, tier=tier, exe=bdir + "/jcdrv", ndocs=12000 if tier == "quick" else 60000, nenum=160 if tier == "quick" else 2000)
     chk.absorb(sh)
     chk.rule = ("documents/trees with serializations around the 4096-byte buffer (1, 4095, 4096, 4097, 8192, 12289, 100k) and generated ones, 9 flag sets; per-call transfer schedules (all-1-byte, whole, random caps, "
                 "alternating 1/large, switching at buffer boundaries) imposed by the shim on a REAL memfd; one injected error (EIO/ENOSPC/EINTR/EAGAIN) at call index 0..5 in 40% of the transfers; depth limits "
